@@ -8,6 +8,7 @@ import (
 	"strings"
 
 	"golang.org/x/text/language"
+	"seehuhn.de/go/postscript/funit"
 	"seehuhn.de/go/sfnt"
 	"seehuhn.de/go/sfnt/cff"
 	"seehuhn.de/go/sfnt/cmap"
@@ -72,11 +73,17 @@ func (s *sigger) sig(gid int) string {
 	var v string
 	switch o := s.f.Outlines.(type) {
 	case *glyf.Outlines:
+		// a names list may be shorter than the glyph list (the remaining glyphs
+		// have no name), and a font read from a file without hmtx has no widths
 		name := ""
-		if o.Names != nil {
+		if gid < len(o.Names) {
 			name = o.Names[gid]
 		}
-		v = hashStr(s.outlineSig(o, gid, 0), o.Widths[gid], name)
+		var w funit.Int16
+		if gid < len(o.Widths) {
+			w = o.Widths[gid]
+		}
+		v = hashStr(s.outlineSig(o, gid, 0), w, name)
 	case *cff.Outlines:
 		g := o.Glyphs[gid]
 		parts := []any{g.Name, g.Width, g.HStem, g.VStem}
@@ -224,6 +231,19 @@ func runC10(c *mon.Ctx) {
 			// as applications get it: the font is read from a file first
 			f = readBack(k, f)
 		}
+		if go_, ok := f.Outlines.(*glyf.Outlines); ok {
+			switch r.IntN(16) {
+			case 0:
+				if len(go_.Names) > 1 {
+					// names for the first glyphs only
+					go_.Names = go_.Names[:1+r.IntN(len(go_.Names)-1)]
+					k.Class("glyf:short-names-list")
+				}
+			case 1:
+				go_.Widths = nil // what the reader returns for a file without hmtx
+				k.Class("glyf:no-widths")
+			}
+		}
 		n := f.NumGlyphs()
 		list := c10list(k, f, n, info)
 		desc := fmt.Sprintf("kind=%s glyphs=%d cmap=%s layout=%v list=%v", info.Kind, n, info.CMap, info.Classes, list)
@@ -364,6 +384,9 @@ func runC10(c *mon.Ctx) {
 				codes[cde] = true
 			}
 			for _, cde := range []rune{0, 0x20, 0x41, 0xffff, 0x10000, 0xf041} {
+				codes[cde] = true
+			}
+			for cde := rune(0); cde < 256; cde++ { // byte encoding tables
 				codes[cde] = true
 			}
 			if m4, ok := newSub.(cmap.Format4); ok {
